@@ -41,6 +41,19 @@ func ProfileMatrix(avoid map[string]string) *Profile {
 	return p
 }
 
+// ProfileMinimal draws files with a single construct: one service, one RPC, at most a couple of fields.
+// Emitted code that is only correct when some other construct happens to pull in an import, a helper or a
+// declaration shows up on such files and is masked on rich ones.
+func ProfileMinimal(avoid map[string]string) *Profile {
+	p := ProfileFull(avoid)
+	p.Name = "minimal"
+	p.MaxDataMessages, p.MaxFields = 0, 2
+	p.MaxServices, p.MaxMethods = 1, 1
+	p.SecondFile, p.Recursive, p.MultiFeature, p.SharedRequest = false, false, false, false
+	p.Rules, p.Examples = false, false
+	return p
+}
+
 // ProfileTransport stresses URL/verb/body transport between generated clients and servers.
 func ProfileTransport(avoid map[string]string) *Profile {
 	return &Profile{Name: "transport", MaxDataMessages: 2, MaxFields: 4, Nested: true, Maps: true, Oneofs: true,
